@@ -1,0 +1,58 @@
+//go:build verif
+
+package shutterservice
+
+import (
+	"context"
+
+	"github.com/jackc/pgx/v4/pgxpool"
+
+	"github.com/shutter-network/rolling-shutter/rolling-shutter/keyper/epochkghandler"
+	"github.com/shutter-network/rolling-shutter/rolling-shutter/keyperimpl/shutterservice/database"
+	"github.com/shutter-network/rolling-shutter/rolling-shutter/medley/broker"
+	syncevent "github.com/shutter-network/rolling-shutter/rolling-shutter/medley/chainsync/event"
+	"github.com/shutter-network/rolling-shutter/rolling-shutter/p2pmsg"
+)
+
+// VerifNewKeyper builds a Keyper that has exactly the fields read by maybeTriggerDecryption
+// and the functions below it: the configuration (own address, event based triggers on/off),
+// the database pool and the decryption trigger channel. latestTriggeredTime is nil, which is
+// the value Start assigns. The syncers are left nil; processNewBlock is not reachable
+// through these hooks.
+func VerifNewKeyper(
+	config *Config,
+	dbpool *pgxpool.Pool,
+	triggers chan *broker.Event[*epochkghandler.DecryptionTrigger],
+) *Keyper {
+	return &Keyper{
+		config:                   config,
+		dbpool:                   dbpool,
+		decryptionTriggerChannel: triggers,
+		latestTriggeredTime:      nil,
+	}
+}
+
+// VerifMaybeTriggerDecryption calls the unexported maybeTriggerDecryption.
+func (kpr *Keyper) VerifMaybeTriggerDecryption(ctx context.Context, block *syncevent.LatestBlock) error {
+	return kpr.maybeTriggerDecryption(ctx, block)
+}
+
+// VerifLatestTriggeredTime reads the volatile high-water mark of block times.
+func (kpr *Keyper) VerifLatestTriggeredTime() (uint64, bool) {
+	if kpr.latestTriggeredTime == nil {
+		return 0, false
+	}
+	return *kpr.latestTriggeredTime, true
+}
+
+// VerifResetLatestTriggeredTime puts the volatile high-water mark back to the value a
+// freshly started keyper has (nil).
+func (kpr *Keyper) VerifResetLatestTriggeredTime() {
+	kpr.latestTriggeredTime = nil
+}
+
+// VerifUpdateEventFlag calls the unexported updateEventFlag, the function that the messaging
+// middleware runs when it lets a DecryptionKeys message out.
+func VerifUpdateEventFlag(ctx context.Context, dbpool *pgxpool.Pool, keys *p2pmsg.DecryptionKeys) error {
+	return updateEventFlag(ctx, database.New(dbpool), keys)
+}
